@@ -96,7 +96,7 @@ def main(run):
             run.violation(key, "native and wasm differ: termination %s/%s, %d/%d values" % (ka, kb, len(va), len(vb)),
                           {"program": src, "native": {"rc": a.get("rc"), "stdout": a.get("out"), "stderr": a.get("err", "")[:500]},
                            "wasm": {"rc": b.get("rc"), "stdout": b.get("out"), "stderr": b.get("err", "")[:500]},
-                           "shrunk_program": shrunk(p)})
+                           "ast": p, "shrunk_program": shrunk(p)})
     run.extra["accepted_by_both"] = both
     for k, v in feats.items():
         run.dist[k] = v
@@ -122,5 +122,22 @@ def main(run):
             run.violation("proof:C02:" + where, "Props/C02 no longer checks (%s)" % where, {"where": where, "log": log}, no_input=True)
 
 def replay(run, path):
-    print(open(path).read())
-    return 0
+    """re-run a recorded disagreement against the current tree (AST in the replay file); exit 1 while the targets still differ"""
+    d = json.load(open(path))
+    rp = d.get("replay", d)
+    ast = rp.get("ast")
+    if ast is None:
+        print(json.dumps(d, indent=1)[:6000])
+        print("(no AST recorded in this replay file: nothing to re-run)")
+        return 0
+    work = Work()
+    a = c01.compile_run_all([ast], work, "native", "rn")[0]
+    b = c01.compile_run_all([ast], work, "wasm", "rw")[0]
+    print(core.to_ferret(ast))
+    print("native:", term_kind(a), repr(a.get("out")))
+    print("wasm:  ", term_kind(b), repr(b.get("out")))
+    if a["accepted"] == b["accepted"] and term_kind(a) == term_kind(b) and values(a.get("out") or "") == values(b.get("out") or ""):
+        print("REPLAY: both targets agree on the current tree")
+        return 0
+    print("VIOLATION property=C02 replay=%s still fails on the current tree" % path)
+    return 1
